@@ -37,6 +37,7 @@ type Opts struct {
 	HotBias            int    // chance in 10 that a variable gets the "hot" type / a call on it targets the hot method (C05: many sites of one method)
 	TwoTypesPerFile    bool   // some files declare a second, package-private top-level type after the first (consumers must use File.Types())
 	CaseTwinClasses    bool   // two classes of one package whose names differ only in letter case (Url / URL), sharing a method name
+	FieldInitCalls     bool   // some field initialisers are calls (recorded by the tool outside any named method; TypeDecl.InitSites)
 	AnonClasses        bool   // some object creations carry an anonymous class body with (call-free) methods
 	AccessorNames      bool   // some methods are named like variables of the project (`Repo repo()`, called as `repo()`)
 	DeepLayout         bool   // one project in ten lies 35+ directories below the analysed root
@@ -950,6 +951,27 @@ func (g *genCtx) excluded(p *Project) {
 		lines = append(lines, "*.class", "build/")
 		p.GitIgnore = strings.Join(lines, "\n") + "\n"
 	}
+	if r.Chance(1, 3) {
+		// a .gitignore of a module directory that holds nothing but a note: its patterns name main files of OTHER
+		// directories (a nested .gitignore speaks about its own directory at most, so those files stay in the model)
+		var main []*File
+		for _, f := range p.Files {
+			if f.Role == RoleMain && f.Type != nil {
+				main = append(main, f)
+			}
+		}
+		if len(main) > 0 {
+			victim := main[r.Intn(len(main))]
+			base := victim.RelPath[strings.LastIndex(victim.RelPath, "/")+1:]
+			lines := []string{base}
+			if i := strings.LastIndex(victim.RelPath, "/"); i > 0 && r.Bool() {
+				lines = []string{victim.RelPath[:i] + "/"}
+			}
+			dirName := r.Pick([]string{"aaa-module", "000-notes", "AModule"}) // sorts before src/, com/, generated/ ...
+			p.Files = append(p.Files, &File{Role: RoleNonJava, RelPath: dirName + "/.gitignore", Text: strings.Join(lines, "\n") + "\n"},
+				&File{Role: RoleNonJava, RelPath: dirName + "/NOTES.md", Text: "module notes\n"})
+		}
+	}
 	for k := r.Range(0, 2); k > 0; k-- {
 		ext := r.Pick([]string{".txt", ".kt", ".javax", ".java.bak", ".md"})
 		name := r.Pick(classWords) + g.fresh("Doc")
@@ -978,6 +1000,11 @@ func SelfCheck(p *Project) error {
 		var allMethods []*Method
 		for _, t := range f.Types() {
 			allMethods = append(allMethods, t.Methods()...)
+			for i, s := range t.InitSites {
+				if s.Ord != i || !at(s.Line, s.Col, s.Name) || f.Text[s.ByteOff:s.ByteOff+len(s.Name)] != s.Name {
+					return fmt.Errorf("%s: field-initialiser site %s of %s not at %d:%d", f.RelPath, s.Name, t.Name, s.Line, s.Col)
+				}
+			}
 		}
 		for _, m := range allMethods {
 			if !at(m.NameLine, m.NameCol, m.Name) {
